@@ -18,7 +18,7 @@ var c07Dims = [][]string{
 	{"", "important"},
 	{"", "domain=a.com", "domain=~a.com"},
 	{"", "script", "script,image", "~script", "script,image,stylesheet,subdocument,object,xmlhttprequest,media,font,websocket,ping,other", "~other", "subdocument,~ping"},
-	{"", "third-party", "match-case", "~third-party"},
+	{"", "third-party", "match-case", "~third-party", "match-case,~match-case", "third-party,~third-party"}, // the last two: one option switched on and off
 	{"", "dnstype=A", "dnstype=~A"},
 	{"", "ctag=x", "ctag=~x"},
 	{"", "client=1.1.1.1", "client=~1.1.1.1"},
